@@ -45,7 +45,7 @@ func c12Fuzz(c *fw.Case, execs int) {
 		args = append(args, "-modfile="+mf)
 	}
 	args = append(args, "-run", "^$", "-fuzz", "^FuzzRequests$", "-fuzztime", fmt.Sprintf("%dx", execs), "-fuzzminimizetime", "5s", "-parallel", fmt.Sprint(par), "./props/")
-	ctx, cancel := context.WithTimeout(context.Background(), 9*time.Minute)
+	ctx, cancel := context.WithTimeout(context.Background(), 14*time.Minute)
 	defer cancel()
 	cmd := exec.CommandContext(ctx, "go", args...)
 	cmd.Dir = dir
@@ -60,7 +60,7 @@ func c12Fuzz(c *fw.Case, execs int) {
 	}
 	out := strings.Join(lines, "\n")
 	if ctx.Err() != nil {
-		c.Inconclusive("fuzz stage: watchdog (9 min) fired")
+		c.Inconclusive("fuzz stage: watchdog (14 min) fired")
 		return
 	}
 	var nExec, interesting, corpus, baseline int64
